@@ -61,7 +61,7 @@ Begin(e) ==
    IN [pid |-> e.pid, dead |-> ~e.raw.ok, pm |-> FALSE, cfg |-> e.cfg, oem |-> oem, m |-> InitModel(D, oem), raw |-> e.raw, D |-> D,
        rv |-> Get(e, "rv", [ok |-> FALSE]), sv |-> <<>>, svok |-> FALSE,
        mounted |-> FALSE, mountSt |-> e.raw.st, changed |-> FALSE, clk |-> e.clk, ro |-> TRUE,
-       atime |-> Get(e.cfg, "atime", FALSE), U |-> e.raw.g.cell, fiUsable |-> FALSE, fiW |-> FALSE, fiTrust |-> TRUE, mountRaw |-> e.raw,
+       atime |-> Get(e.cfg, "atime", FALSE), U |-> e.raw.g.cell, fiUsable |-> FALSE, fiW |-> FALSE, fiTrust |-> TRUE, mountRaw |-> e.raw, mountFree |-> FreeCount(D.F),
        dur |-> {}, wl |-> 0, crv |-> [ok |-> FALSE]]
 
 \* C08: a volume made by someone else is read faithfully: what the library lists (fresh mount) and what
@@ -471,7 +471,10 @@ Step(s, e) ==
                   ELSE s.fiTrust
        \* ---- C05 FSInfo at unmount
        \* (a volume left marked dirty tells every mounter to ignore the stored count)
+       \* (a session that neither changed the number of free clusters nor wrote the information sector leaves whatever a previous
+       \*  writer stored there: nothing was "written at unmount")
        c05 == IF e.op \in {"unmount", "dropfs"} /\ IsFat32(post) /\ e.r.k = "ok" /\ post.fi.ok /\ ~DirtyBit(post.st) /\ s.fiTrust
+                 /\ (post.fi # s.mountRaw.fi \/ FreeCount(Dp.F) # s.mountFree)
               THEN Tag("C05.fsinfo_count", post.fi.free = -1 \/ post.fi.free = FreeCount(Dp.F))
                    \cup Tag("C05.fsinfo_hint", post.fi.next = -1 \/ (post.fi.next >= 2 /\ post.fi.next <= post.g.n + 1))
               ELSE {}
@@ -563,7 +566,8 @@ Step(s, e) ==
    IN [s |-> [s EXCEPT !.m = m, !.raw = post, !.D = Dp, !.rv = rv, !.sv = sv, !.svok = svok, !.dead = (\E t \in v : \E pfx \in {"C00.", "C01.", "C02.", "C04.", "C15."} : SubSeqStr(t, pfx)),
                        !.pm = (\E t \in v : \E pfx \in {"C00.", "C01.", "C02.", "C04.", "C15."} : SubSeqStr(t, pfx)),
                        !.changed = changed, !.mountSt = mountSt, !.ro = ro, !.fiUsable = fiUsable, !.fiW = fiW, !.fiTrust = fiTrust,
-                       !.mountRaw = IF e.op = "mount" THEN s.raw ELSE s.mountRaw, !.dur = dur, !.wl = wlNow,
+                       !.mountRaw = IF e.op = "mount" THEN s.raw ELSE s.mountRaw,
+                       !.mountFree = IF e.op = "mount" THEN FreeCount(s.D.F) ELSE s.mountFree, !.dur = dur, !.wl = wlNow,
                        !.clk = IF Has(e, "clk") THEN e.clk ELSE s.clk],
        v |-> v, dev |-> st3.dev, note |-> {}]
 
